@@ -37,7 +37,8 @@ TECHNIQUE = ("complete small-scope input enumeration (every point sequence over 
 RULE = ("F: one case = (point sequence, weight vector) run through is_pareto_efficient in mask form and index form; "
         "sequences are ALL orders of ALL multisets of n grid points; a sequence is non-trivial when n >= 2 (some enumerated "
         "sign vector then makes one point dominate or equal another, so the filter must drop something); distinct by "
-        "(grid, sequence). D: one case = (obj1, cv1, obj2, cv2), all pairs; triples through the pair table. "
+        "(grid, sequence); quick tier only: 3-objective fronts of >= 3 points go through the transformations in sorted and reversed "
+        "order only. D: one case = (obj1, cv1, obj2, cv2), all pairs; triples through the pair table. "
         "T: one case = (front sequence, sign vector, preference vector) run through all three implementations, plain and "
         "translated; non-trivial = at least two distinct points. states = distinct (layer, grid, sequence[, sign]) configurations; "
         "transitions = real function calls; traces = cases whose every observation agreed with the reference")
@@ -287,6 +288,7 @@ def run_F(spec, ctx):
     parity = 0
     ocache = set()
     ndrop = 0
+    nmust = 0
     for ms in ms_all:
         perms = R.unique_perms(ms)
         for seq in perms:
@@ -298,6 +300,12 @@ def run_F(spec, ctx):
             ctx.flag("F:duplicate-points")
         for grp in groups:
             base = None   # (effset, seq, weight) of the first case of this (multiset, sign vector)
+            DOM0 = grp[0].DOM
+            uniq = sorted(set(ms))
+            if any(DOM0[r][q] for r in uniq for q in uniq):
+                nmust += len(grp) * len(perms)       # reference: some point is dominated, the filter has to drop it
+            if sum(1 for q in uniq if not any(DOM0[r][q] for r in uniq)) > 1:
+                ctx.flag("F:front-with-several-points")
             for w in grp:
                 for seq in perms:
                     parity ^= 1
@@ -306,8 +314,6 @@ def run_F(spec, ctx):
                         continue
                     if nm < n:
                         ndrop += 1
-                    if nm > 1:
-                        ctx.flag("F:front-with-several-points")
                     key = (w.sg, e)
                     if key not in ocache:
                         ocache.add(key)
@@ -326,6 +332,7 @@ def run_F(spec, ctx):
         if len(perms) > 1:
             ctx.count("F:multisets-with-several-orders-compared")
     ctx.count("F:cases-with-a-dropped-point", ndrop)
+    ctx.count("F:cases-with-a-dominated-point(reference)", nmust)
 
 
 # ---------------------------------------------------------------------------- layer D
@@ -342,13 +349,15 @@ def run_D(spec, ctx):
             box = {}
             ctx.evaluations += 1
             ctx.state(bytes([ord("D"), k, a, b]))
+            ctx.count(f"D:{'feasible' if c1 <= 0 else 'infeasible'}-vs-{'feasible' if c2 <= 0 else 'infeasible'}:"
+                      f"{R.dominates_ref(G.pts[p1], Q(c1), G.pts[p2], Q(c2))}")
             if ctx.guard(lambda: box.update(r=d_case(ctx, case)), case=case, sig_prefix=PD):
                 ctx.traces += 1
                 tab[(a, b)] = box["r"]
                 ctx.outcome(("D", box["r"], c1 <= 0, c2 <= 0))
                 if p1 != p2 or c1 != c2:
                     ctx.nontriv(bytes([ord("D"), k, a, b]))
-                ctx.count(f"D:{'feasible' if c1 <= 0 else 'infeasible'}-vs-{'feasible' if c2 <= 0 else 'infeasible'}:{box['r']}")
+                ctx.count(f"D:observed-{'feasible' if c1 <= 0 else 'infeasible'}-vs-{'feasible' if c2 <= 0 else 'infeasible'}:{box['r']}")
     # strict partial order on the complete pair table
     ns = len(st)
     if len(tab) == ns * ns:
@@ -574,7 +583,7 @@ def finalize(ctx, tier, seed):
               "T:minimised-objective", "T:single-point-front", "T:duplicate-points"):
         assert f in ctx.flags, f
     c = ctx.counters
-    assert c.get("F:cases-with-a-dropped-point", 0) > 1000, c.get("F:cases-with-a-dropped-point")
+    assert c.get("F:cases-with-a-dominated-point(reference)", 0) > 1000, c.get("F:cases-with-a-dominated-point(reference)")
     assert c.get("F:multisets-with-several-orders-compared", 0) > 100
     assert c.get("F:rescaling-groups-compared", 0) > 100
     assert c.get("T:cases-with-a-constant-objective", 0) > 100
@@ -583,9 +592,12 @@ def finalize(ctx, tier, seed):
         for b in ("feasible", "infeasible"):
             got = {r for r in (True, False) if c.get(f"D:{a}-vs-{b}:{r}", 0) > 0}
             want = {("infeasible", "feasible"): {False}, ("feasible", "infeasible"): {True}}.get((a, b), {True, False})
-            assert got == want or any(v.startswith(PD) for v in ctx.violations), (a, b, got)
+            assert got == want, (a, b, got)      # counted by the reference's answer: both answers are demanded of the library
     assert c.get("T:calls-per-implementation", 0) > 1000
-    assert len(ctx.outcomes) > 50, len(ctx.outcomes)
+    from ..core import load_known, match_known
+    known = load_known()
+    unknown = [sg for sg in ctx.violations if not match_known(ID, sg, known)]
+    assert len(ctx.outcomes) > 50 or unknown, len(ctx.outcomes)     # (observed outcomes depend on the library; a broken library fails above)
     # exact expected sizes of the sequence spaces (nothing silently skipped)
     exp = 0
     for gname, n, wset in F:
